@@ -162,6 +162,46 @@ pub fn field_variants(t: &mut Tape, plan: &XzPlan) -> Vec<(XzPlan, &'static str,
     } else {
         (0..nb).collect()
     };
+    // two index records wrong together so that the record count and both column
+    // sums stay right: records swapped, or d bytes moved from one record to another
+    if nb >= 2 {
+        let rec = |bi: usize| -> (u64, u64) {
+            let b = &plan.blocks[bi];
+            let h = field(&format!("block{}.size_byte", bi)).unwrap();
+            let pf = field(&format!("block{}.payload", bi)).unwrap();
+            (((pf.off - h.off) + b.payload.len() + check_size(plan.check_id)) as u64, b.content.len() as u64)
+        };
+        let mut pairs = vec![(0usize, nb - 1)];
+        if nb >= 3 {
+            pairs.push((0, 1));
+            pairs.push((nb - 2, nb - 1));
+        }
+        pairs.dedup();
+        for (i, j) in pairs {
+            let (ui, ci) = rec(i);
+            let (uj, cj) = rec(j);
+            if (ui, ci) != (uj, cj) {
+                let mut p = plan.clone();
+                p.ov_records.push((i, Some(uj), Some(cj)));
+                p.ov_records.push((j, Some(ui), Some(ci)));
+                v.push((p, "index.records_pair", format!("index records {} and {} swapped", i, j)));
+            }
+            for d in [1u64, 4] {
+                if uj > d + 4 {
+                    let mut p = plan.clone();
+                    p.ov_records.push((i, Some(ui + d), None));
+                    p.ov_records.push((j, Some(uj - d), None));
+                    v.push((p, "index.records_pair", format!("{} bytes of unpadded size moved from record {} to record {}", d, j, i)));
+                }
+                if cj >= d {
+                    let mut p = plan.clone();
+                    p.ov_records.push((i, None, Some(ci + d)));
+                    p.ov_records.push((j, None, Some(cj - d)));
+                    v.push((p, "index.records_pair", format!("{} bytes of uncompressed size moved from record {} to record {}", d, j, i)));
+                }
+            }
+        }
+    }
     for bi in bis {
         let b = &plan.blocks[bi];
         let hdr_field = field(&format!("block{}.size_byte", bi)).unwrap();
@@ -359,7 +399,7 @@ impl Property for C06 {
         "fault_enumeration"
     }
     fn rule(&self) -> &'static str {
-        "per seeded valid .xz file (0-3 blocks, check None/CRC32/CRC64, optional fields, paddings): (a) one bit flipped — every bit position in the thorough tier, a sample in quick; (b) truncation at every (sampled) offset; (c) every integrity/size field (magics, stream flags, the 4 kinds of CRC32, backward size, index count and records, declared block sizes, size byte, all paddings, check field) replaced by values from {0, 1, true±1, true+4, true+2^30·k, true+2^32, 2^31, 2^32-1, 2^63-1, random} with every enclosing CRC recomputed. One evaluation = one mutated file through xz_decompress (reader rotating over: slice, 1-byte refills, fixed k, irregular refills); Ok obliges (1) the field-exact judge to confirm every listed field against the delivered bytes and (2) for CRC32/CRC64 files delivered == original; all cases distinct by scenario hash and non-trivial"
+        "per seeded valid .xz file (0-3 blocks, check None/CRC32/CRC64, optional fields, paddings): (a) one bit flipped — every bit position in the thorough tier, a sample in quick; (b) truncation at every (sampled) offset; (c) every integrity/size field (magics, stream flags, the 4 kinds of CRC32, backward size, index count and records (also two records wrong together with both column sums preserved), declared block sizes, size byte, all paddings, check field) replaced by values from {0, 1, true±1, true+4, true+2^30·k, true+2^32, 2^31, 2^32-1, 2^63-1, random} with every enclosing CRC recomputed. One evaluation = one mutated file through xz_decompress (reader rotating over: slice, 1-byte refills, fixed k, irregular refills); Ok obliges (1) the field-exact judge to confirm every listed field against the delivered bytes and (2) for CRC32/CRC64 files delivered == original; all cases distinct by scenario hash and non-trivial"
     }
     fn runs(&self, tier: Tier) -> u64 {
         match tier {
@@ -453,6 +493,7 @@ impl Property for C06 {
             ctx.stats.hit("fault.fired.field_substitution_crc_consistent");
             let key: &'static str = match field {
                 "footer.backward" => "probe.substituted_backward_size",
+                "index.records_pair" => "probe.two_index_records_wrong_sums_preserved",
                 "index.count" | "index.unpadded" | "index.uncompressed" | "index.pad" | "index.crc32" => "probe.substituted_index_field",
                 "block.csize" | "block.usize" | "block.size_byte" => "probe.substituted_declared_block_size",
                 "block.pad" | "block.header_pad" => "probe.substituted_padding",
